@@ -1,6 +1,7 @@
 import DryocVerif.Proofs.SecretBox
 import DryocVerif.Proofs.Inst
 import DryocVerif.Proofs.SecretBoxExtra
+import DryocVerif.Proofs.SecretBoxExtra2
 import DryocVerif.Spec.NaCl
 /-
 C01 — secretbox / box / sealed box: every open ∘ seal pairing is the identity, all API forms
@@ -13,6 +14,25 @@ Diffie-Hellman agreement `P.dh ssk rpk = P.dh rsk spk`.
 Helper lemmas live in `DryocVerif/Proofs/SecretBox.lean`.
 Section 7 states model = NaCl specification (sealing and opening) for `Model.boxPrims`, the instance the
 driver runs (helper lemmas in `DryocVerif/Proofs/SecretBoxExtra.lean`).
+Section 8 (second review round; helper lemmas in `DryocVerif/Proofs/SecretBoxExtra2.lean`): the
+precomputed-key (`afternm`, `precalc_*`) forms, the sealed-box round trips for `Model.boxPrims`, and
+over-long caller buffers.
+
+OBSERVATIONS (stated as theorems below, not defects of the model):
+* Ephemeral public key of a sealed box.  In the model `epk = P.dhBase esk`, and for `Model.boxPrims` /
+  `specPrims` `dhBase = Spec.X25519.x25519Base` (the Montgomery ladder on u = 9).  The Rust derives it
+  through `crypto_box_keypair` → `crypto_scalarmult_curve25519_base`, i.e. the Edwards base-point table
+  followed by the map to Montgomery form.  Every sealed-box theorem for `boxPrims` / `specPrims`
+  (`model_eq_spec_boxSeal*`, `model_eq_spec_objSeal_boxPrims`, `seal_roundtrip_concrete`,
+  `seal_obj_roundtrip_concrete`, and `open_seal_boxSeal`, `open_seal_objSeal`, `forms_agree_*Seal*` when
+  instantiated with them) therefore speaks about the Rust code only under the named, unproved curve
+  hypothesis `C05.BaseEdwardsOK` (checked differentially and on instances).
+* Caller contract: exact buffer size.  `crypto_secretbox_easy` / `_detached`, `crypto_box_easy` /
+  `_detached` and `crypto_box_seal` (which accepts `ciphertext.len() ≥ message.len() + 48`) copy the message
+  to the front of the caller's buffer and then encrypt AND authenticate the WHOLE buffer.  With an over-long
+  buffer the output is libsodium's box of `message ‖ trailing buffer bytes`, not of `message`
+  (`easy_oversized_*`, `boxSeal_oversized_boxPrims`): the 16-byte tag covers the trailing bytes, so the first
+  `message.len() + 16` bytes are NOT a valid box.  The object layer always sizes exactly.
 -/
 namespace DryocVerif.Properties.C01
 open DryocVerif DryocVerif.Model.SecretBox
@@ -133,7 +153,11 @@ theorem boxDetached_open_seal_of_dh_comm (P : Prims) (wf : WF P)
 /-- `crypto_box_seal_open ∘ crypto_box_seal = id`.  Sealing uses the ephemeral secret `esk`
 against `rpk`; opening uses `rsk` against the transmitted ephemeral public key, so here the
 Diffie-Hellman agreement `hdh` is unavoidable; `hpk` (public keys are 32 bytes) is what lets the
-recipient split `epk ‖ box` at byte 32. -/
+recipient split `epk ‖ box` at byte 32.
+NB the ephemeral public key is `P.dhBase esk`.  Instantiated with `boxPrims` / `specPrims` this is the
+Montgomery ladder on u = 9 (`Spec.X25519.x25519Base`), whereas the Rust computes it with
+`crypto_box_keypair` → `crypto_scalarmult_curve25519_base` (Edwards base table): the instance transfers
+to the code only under `C05.BaseEdwardsOK`. -/
 theorem open_seal_boxSeal (P : Prims) (wf : WF P) (ct0 buf m rpk rsk esk ct : Bytes)
     (hpk : (P.dhBase esk).length = 32)
     (hdh : P.dh esk rpk = P.dh rsk (P.dhBase esk))
@@ -195,7 +219,9 @@ theorem objBox_open_seal_of_dh_comm (P : Prims) (wf : WF P) (m n spk ssk rpk rsk
 
 /-- `DryocBox::unseal ∘ DryocBox::seal = id` (DH agreement between the ephemeral and the
 recipient key pair, as for `open_seal_boxSeal`; no length fact is needed: the object keeps the
-ephemeral public key in its own field). -/
+ephemeral public key in its own field).  As for `open_seal_boxSeal`, with `dhBase := x25519Base` the
+ephemeral public key is the ladder's, the Rust's comes from the Edwards base table: transfer to the code
+under `C05.BaseEdwardsOK`. -/
 theorem open_seal_objSeal (P : Prims) (wf : WF P) (m rpk rsk esk : Bytes) (b : Box)
     (hdh : P.dh esk rpk = P.dh rsk (P.dhBase esk))
     (hseal : objSeal P m rpk esk = .ok b) :
@@ -290,7 +316,9 @@ theorem forms_agree_boxEasyInplace_easyInplace (P : Prims) (d n pk sk : Bytes)
     boxEasyInplace P d n pk sk = easyInplace P d n (beforenm P pk sk) :=
   boxEasyInplace_eq_easyInplace P d n pk sk hd
 
-/-- sealed box = ephemeral public key ‖ box under `(rpk, esk)` with the derived nonce -/
+/-- sealed box = ephemeral public key ‖ box under `(rpk, esk)` with the derived nonce.  (The ephemeral
+public key is `P.dhBase esk`; for `dhBase := x25519Base` the identification with the Rust's
+`crypto_box_keypair` output is `C05.BaseEdwardsOK`.) -/
 theorem forms_agree_boxSeal_boxEasy (P : Prims) (ct0 ct1 m rpk esk c : Bytes)
     (hct0 : ct0.length = m.length + 48) (hct1 : ct1.length = m.length + 16)
     (hb : boxEasy P ct1 m (sealNonce P (P.dhBase esk) rpk) rpk esk = .ok c) :
@@ -313,7 +341,8 @@ theorem forms_agree_obj_easy (P : Prims) (ct0 m n k : Bytes) (b : Box)
 theorem objEncrypt_ok (P : Prims) (m n k : Bytes) : ∃ b, objEncrypt P m n k = .ok b :=
   ⟨_, objEncrypt_eq P m n k⟩
 
-/-- `to_bytes (DryocBox::seal …)` = `crypto_box_seal …` -/
+/-- `to_bytes (DryocBox::seal …)` = `crypto_box_seal …` (both sides use the same `P.dhBase esk`; what that
+is in the Rust for `dhBase := x25519Base` is `C05.BaseEdwardsOK`) -/
 theorem forms_agree_objSeal_boxSeal (P : Prims) (ct0 m rpk esk : Bytes) (b : Box)
     (hct0 : ct0.length = m.length + 48) (hb : objSeal P m rpk esk = .ok b) :
     boxSeal P ct0 m rpk esk = .ok (toBytes b) := by
@@ -374,6 +403,9 @@ theorem model_eq_spec_boxEasy (m n pk sk : Bytes) :
   rw [boxEasy_eq_easy specPrims _ m n pk sk (by simp [zeros]), model_eq_spec_easy]
   rfl
 
+/-- sealed box with the specification primitives = libsodium's sealed box, with the ephemeral public key
+`Spec.X25519.x25519Base esk` (ladder on u = 9).  The Rust derives the ephemeral public key through the
+Edwards base table: this speaks about the code only under `C05.BaseEdwardsOK`. -/
 theorem model_eq_spec_boxSeal (m rpk esk : Bytes) :
     boxSeal specPrims (zeros (m.length + 48)) m rpk esk = .ok (Spec.NaCl.boxSeal rpk esk m) := by
   rw [boxSeal_eq specPrims _ m rpk esk (by simp [zeros])]
@@ -782,12 +814,17 @@ theorem model_eq_spec_boxDetached_boxPrims (ct0 m n pk sk : Bytes) (h : ct0.leng
   SecretBoxExtra.boxDetached_boxPrims ct0 m n pk sk h
 
 /-- `crypto_box_seal` with ephemeral secret `esk` = libsodium's sealed box
-`epk ‖ box(m, nonce = BLAKE2b-24(epk ‖ rpk), rpk, esk)` -/
+`epk ‖ box(m, nonce = BLAKE2b-24(epk ‖ rpk), rpk, esk)`.
+Here `epk = boxPrims.dhBase esk = Spec.X25519.x25519Base esk`, the Montgomery ladder on u = 9; the Rust
+obtains `epk` from `crypto_box_keypair` → `crypto_scalarmult_curve25519_base` (Edwards base-point table,
+scalar reduced mod L, then `to_montgomery`).  The statement transfers to the Rust function only under the
+named hypothesis `C05.BaseEdwardsOK` (unproved curve fact; differential tests and instances). -/
 theorem model_eq_spec_boxSeal_boxPrims (ct0 m rpk esk : Bytes) (h : ct0.length = m.length + 48) :
     boxSeal boxPrims ct0 m rpk esk = .ok (Spec.NaCl.boxSeal rpk esk m) :=
   SecretBoxExtra.boxSeal_boxPrims ct0 m rpk esk h
 
-/-- `DryocBox::seal(...).to_vec()` = libsodium's sealed box -/
+/-- `DryocBox::seal(...).to_vec()` = libsodium's sealed box (ephemeral public key = ladder on u = 9; the
+Rust's comes from the Edwards base table: transfers to the code only under `C05.BaseEdwardsOK`) -/
 theorem model_eq_spec_objSeal_boxPrims (m rpk esk : Bytes) :
     ∃ b, objSeal boxPrims m rpk esk = .ok b ∧ toBytes b = Spec.NaCl.boxSeal rpk esk m :=
   SecretBoxExtra.objSeal_boxPrims m rpk esk
@@ -1007,5 +1044,310 @@ example : ∃ ct, boxEasy boxPrims (zeros (toyMsg.length + 16)) toyMsg (zeros 24
     x25519_dh_agreement_rfc.1
 
 end ConcreteSpec
+
+/-! ## 8. second review round: precomputed-key forms, sealed boxes for the driver's primitives, over-long
+caller buffers (helper lemmas in `DryocVerif/Proofs/SecretBoxExtra2.lean`) -/
+
+section Round2
+open DryocVerif.Model (boxPrims)
+open DryocVerif.Proofs
+
+/-! ### 8a. `crypto_box_*_afternm`: the secretbox functions under the caller's precomputed key -/
+
+/-- `crypto_box_detached` is `crypto_box_detached_afternm` under `crypto_box_beforenm(pk, sk)` -/
+theorem forms_agree_boxDetached_afternm (P : Prims) (ct0 m n pk sk : Bytes) :
+    boxDetached P ct0 m n pk sk = boxDetachedAfternm P ct0 m n (beforenm P pk sk) := rfl
+
+theorem forms_agree_boxDetachedInplace_afternm (P : Prims) (d n pk sk : Bytes) :
+    boxDetachedInplace P d n pk sk = boxDetachedAfternmInplace P d n (beforenm P pk sk) := rfl
+
+/-- `crypto_box_detached_afternm` is `crypto_secretbox_detached` (a one-line call in the Rust) -/
+theorem forms_agree_boxDetachedAfternm_detached (P : Prims) (ct0 m n k : Bytes) :
+    boxDetachedAfternm P ct0 m n k = detached P ct0 m n k := rfl
+
+theorem forms_agree_boxDetachedAfternmInplace_detachedInplace (P : Prims) (d n k : Bytes) :
+    boxDetachedAfternmInplace P d n k = detachedInplace P d n k := rfl
+
+/-- `crypto_box_open_detached_afternm ∘ crypto_box_detached_afternm = id` (same precomputed key) -/
+theorem open_seal_boxDetachedAfternm (P : Prims) (wf : WF P) (ct0 buf m n k c tag : Bytes)
+    (hct0 : ct0.length = m.length) (hbuf : buf.length = m.length)
+    (hseal : boxDetachedAfternm P ct0 m n k = .ok (c, tag)) :
+    boxOpenDetachedAfternm P buf tag c n k = ⟨.ok (), m⟩ :=
+  open_seal_detached P wf ct0 buf m n k c tag hct0 hbuf hseal
+
+/-- `crypto_box_open_detached_afternm_inplace ∘ crypto_box_detached_afternm_inplace = id` -/
+theorem open_seal_boxDetachedAfternmInplace (P : Prims) (wf : WF P) (m n k c tag : Bytes)
+    (hseal : boxDetachedAfternmInplace P m n k = (c, tag)) :
+    boxOpenDetachedAfternmInplace P c tag n k = ⟨.ok (), m⟩ :=
+  open_seal_detachedInplace P wf m n k c tag hseal
+
+/-- mixed forms, two key pairs: the sender seals with the key-pair form `(rpk, ssk)`, the recipient opens
+with the key it precomputed from `(spk, rsk)`; round trip under the Diffie-Hellman agreement -/
+theorem boxDetached_open_afternm_of_dh_comm (P : Prims) (wf : WF P)
+    (ct0 buf m n spk ssk rpk rsk c tag : Bytes)
+    (hdh : P.dh ssk rpk = P.dh rsk spk)
+    (hct0 : ct0.length = m.length) (hbuf : buf.length = m.length)
+    (hseal : boxDetached P ct0 m n rpk ssk = .ok (c, tag)) :
+    boxOpenDetachedAfternm P buf tag c n (beforenm P spk rsk) = ⟨.ok (), m⟩ :=
+  boxDetached_open_seal_of_dh_comm P wf ct0 buf m n spk ssk rpk rsk c tag hdh hct0 hbuf hseal
+
+/-- … and the other way round: sealed under the sender's precomputed key, opened with the key-pair form -/
+theorem boxDetachedAfternm_open_of_dh_comm (P : Prims) (wf : WF P)
+    (ct0 buf m n spk ssk rpk rsk c tag : Bytes)
+    (hdh : P.dh ssk rpk = P.dh rsk spk)
+    (hct0 : ct0.length = m.length) (hbuf : buf.length = m.length)
+    (hseal : boxDetachedAfternm P ct0 m n (beforenm P rpk ssk) = .ok (c, tag)) :
+    boxOpenDetached P buf tag c n spk rsk = ⟨.ok (), m⟩ :=
+  boxDetached_open_seal_of_dh_comm P wf ct0 buf m n spk ssk rpk rsk c tag hdh hct0 hbuf hseal
+
+/-- `crypto_box_detached_afternm`, as run by the driver, returns the two parts of NaCl's
+`secretbox(key, n, m)` — the precomputed-key form IS the secretbox with that key -/
+theorem model_eq_spec_boxDetachedAfternm_boxPrims (ct0 m n k : Bytes) (h : ct0.length = m.length) :
+    boxDetachedAfternm boxPrims ct0 m n k
+      = .ok ((Spec.NaCl.secretbox k n m).drop 16, (Spec.NaCl.secretbox k n m).take 16) :=
+  SecretBoxExtra.detached_boxPrims ct0 m n k h
+
+theorem model_eq_spec_boxDetachedAfternmInplace_boxPrims (m n k : Bytes) :
+    boxDetachedAfternmInplace boxPrims m n k
+      = ((Spec.NaCl.secretbox k n m).drop 16, (Spec.NaCl.secretbox k n m).take 16) :=
+  SecretBoxExtra.detachedInplace_boxPrims m n k
+
+/-- … and with the key `crypto_box_beforenm(pk, sk)` the two parts of NaCl's `box(pk, sk, n, m)` -/
+theorem model_eq_spec_boxDetachedAfternm_beforenm_boxPrims (ct0 m n pk sk : Bytes)
+    (h : ct0.length = m.length) :
+    boxDetachedAfternm boxPrims ct0 m n (beforenm boxPrims pk sk)
+      = .ok ((Spec.NaCl.box pk sk n m).drop 16, (Spec.NaCl.box pk sk n m).take 16) :=
+  SecretBoxExtra.boxDetached_boxPrims ct0 m n pk sk h
+
+/-- `crypto_box_open_detached_afternm` decides like NaCl's `secretbox_open` on `tag ‖ c` under the
+precomputed key -/
+theorem model_eq_spec_boxOpenDetachedAfternm_boxPrims (buf tag c n k : Bytes) (ht : tag.length = 16) :
+    boxOpenDetachedAfternm boxPrims buf tag c n k
+      = if buf.length < c.length then ⟨.panic, buf⟩
+        else match Spec.NaCl.secretboxOpen k n (tag ++ c) with
+          | some m => ⟨.ok (), m ++ buf.drop c.length⟩
+          | none => ⟨.err, buf⟩ :=
+  SecretBoxExtra.openDetached_boxPrims buf tag c n k ht
+
+theorem model_eq_spec_boxOpenDetachedAfternmInplace_boxPrims (d tag n k : Bytes) (ht : tag.length = 16) :
+    boxOpenDetachedAfternmInplace boxPrims d tag n k
+      = match Spec.NaCl.secretboxOpen k n (tag ++ d) with
+        | some m => ⟨.ok (), m⟩
+        | none => ⟨.err, d⟩ :=
+  SecretBoxExtra.openDetachedInplace_boxPrims d tag n k ht
+
+/-- round trip of the precomputed-key forms for the driver's primitives: every key, message, 24-byte nonce -/
+theorem boxDetachedAfternm_roundtrip_concrete (k n m buf : Bytes) (hn : 24 ≤ n.length)
+    (hbuf : buf.length = m.length) :
+    ∃ c tag, boxDetachedAfternm boxPrims (zeros m.length) m n k = .ok (c, tag) ∧ c.length = m.length ∧
+      tag.length = 16 ∧ boxOpenDetachedAfternm boxPrims buf tag c n k = ⟨.ok (), m⟩ :=
+  secretbox_detached_roundtrip_concrete k n m buf hn hbuf
+
+theorem boxDetachedAfternmInplace_roundtrip_concrete (k n m : Bytes) (hn : 24 ≤ n.length) :
+    boxOpenDetachedAfternmInplace boxPrims (boxDetachedAfternmInplace boxPrims m n k).1
+        (boxDetachedAfternmInplace boxPrims m n k).2 n k = ⟨.ok (), m⟩ :=
+  secretbox_detachedInplace_roundtrip_concrete k n m hn
+
+/-! ### 8b. `PrecalcSecretKey::precalculate`, `DryocBox::precalc_encrypt` / `precalc_decrypt` -/
+
+/-- `PrecalcSecretKey::precalculate` is `crypto_box_beforenm`; with the driver's primitives NaCl's -/
+theorem precalculate_eq_beforenm (P : Prims) (pk sk : Bytes) : precalculate P pk sk = beforenm P pk sk := rfl
+
+theorem model_eq_spec_precalculate_boxPrims (pk sk : Bytes) :
+    precalculate boxPrims pk sk = Spec.NaCl.beforenm pk sk := rfl
+
+/-- `precalc_encrypt` is `DryocSecretBox::encrypt` under the precomputed key (same statements: resize, one
+`crypto_secretbox_detached` call) -/
+theorem forms_agree_objPrecalcEncrypt_objEncrypt (P : Prims) (m n k : Bytes) :
+    objPrecalcEncrypt P m n k = objEncrypt P m n k := rfl
+
+theorem forms_agree_objPrecalcDecrypt_objDecrypt (P : Prims) (b : Box) (n k : Bytes) :
+    objPrecalcDecrypt P b n k = objDecrypt P b n k := rfl
+
+/-- `precalc_encrypt` with `precalculate(pk, sk)` = `DryocBox::encrypt` with `(pk, sk)` -/
+theorem forms_agree_objPrecalcEncrypt_objBoxEncrypt (P : Prims) (m n pk sk : Bytes) :
+    objPrecalcEncrypt P m n (precalculate P pk sk) = objBoxEncrypt P m n pk sk := rfl
+
+theorem forms_agree_objPrecalcDecrypt_objBoxDecrypt (P : Prims) (b : Box) (n pk sk : Bytes) :
+    objPrecalcDecrypt P b n (precalculate P pk sk) = objBoxDecrypt P b n pk sk := rfl
+
+/-- `precalc_decrypt ∘ precalc_encrypt = id` (same precomputed key) -/
+theorem open_seal_objPrecalc (P : Prims) (wf : WF P) (m n k : Bytes) (b : Box)
+    (hseal : objPrecalcEncrypt P m n k = .ok b) :
+    objPrecalcDecrypt P b n k = .ok m :=
+  open_seal_obj P wf m n k b hseal
+
+/-- two key pairs: sender precomputes from `(rpk, ssk)`, recipient from `(spk, rsk)`; round trip under the
+Diffie-Hellman agreement -/
+theorem objPrecalc_open_seal_of_dh_comm (P : Prims) (wf : WF P) (m n spk ssk rpk rsk : Bytes) (b : Box)
+    (hdh : P.dh ssk rpk = P.dh rsk spk)
+    (hseal : objPrecalcEncrypt P m n (precalculate P rpk ssk) = .ok b) :
+    objPrecalcDecrypt P b n (precalculate P spk rsk) = .ok m :=
+  objBox_open_seal_of_dh_comm P wf m n spk ssk rpk rsk b hdh hseal
+
+/-- mixed: `DryocBox::encrypt` with the key pair, `precalc_decrypt` with the recipient's precomputed key -/
+theorem objBox_encrypt_precalc_decrypt_of_dh_comm (P : Prims) (wf : WF P) (m n spk ssk rpk rsk : Bytes)
+    (b : Box) (hdh : P.dh ssk rpk = P.dh rsk spk)
+    (hseal : objBoxEncrypt P m n rpk ssk = .ok b) :
+    objPrecalcDecrypt P b n (precalculate P spk rsk) = .ok m :=
+  objBox_open_seal_of_dh_comm P wf m n spk ssk rpk rsk b hdh hseal
+
+/-- `precalc_encrypt(...).to_vec()` = NaCl's secretbox under the precomputed key … -/
+theorem model_eq_spec_objPrecalcEncrypt_boxPrims (m n k : Bytes) :
+    ∃ b, objPrecalcEncrypt boxPrims m n k = .ok b ∧ toBytes b = Spec.NaCl.secretbox k n m :=
+  model_eq_spec_objEncrypt_boxPrims m n k
+
+/-- … hence, with `precalculate(pk, sk)`, NaCl's `box(pk, sk, n, m)` -/
+theorem model_eq_spec_objPrecalcEncrypt_precalculate_boxPrims (m n pk sk : Bytes) :
+    ∃ b, objPrecalcEncrypt boxPrims m n (precalculate boxPrims pk sk) = .ok b ∧
+      toBytes b = Spec.NaCl.box pk sk n m :=
+  model_eq_spec_objEncrypt_boxPrims m n _
+
+/-- `precalc_decrypt` = NaCl's `secretbox_open` on `tag ‖ data` under the precomputed key -/
+theorem model_eq_spec_objPrecalcDecrypt_boxPrims (b : Box) (n k : Bytes) (ht : b.tag.length = 16) :
+    objPrecalcDecrypt boxPrims b n k
+      = match Spec.NaCl.secretboxOpen k n (b.tag ++ b.data) with
+        | some m => .ok m
+        | none => .err :=
+  SecretBoxExtra.objDecrypt_boxPrims b n k ht
+
+/-- round trip for the driver's primitives, also through `to_bytes` / `from_bytes` -/
+theorem precalc_obj_roundtrip_concrete (k n m : Bytes) (hn : 24 ≤ n.length) :
+    ∃ b, objPrecalcEncrypt boxPrims m n k = .ok b ∧ objPrecalcDecrypt boxPrims b n k = .ok m ∧
+      fromBytes (toBytes b) = .ok b :=
+  secretbox_obj_roundtrip_concrete k n m hn
+
+/-! ### 8c. sealed boxes for the driver's primitives
+
+The derived nonce has its 24 bytes for every input, so no nonce hypothesis remains; the hypothesis is the
+Diffie-Hellman agreement between the ephemeral and the recipient key pair.  The ephemeral public key is
+`Spec.X25519.x25519Base esk` (ladder on u = 9); the Rust's comes from the Edwards base table: these theorems
+speak about the code under `C05.BaseEdwardsOK`. -/
+
+/-- `crypto_box_seal_open ∘ crypto_box_seal = id` with X25519 / HSalsa20 / XSalsa20 / Poly1305 / BLAKE2b:
+every message, every ephemeral secret `esk` and recipient pair `(rpk, rsk)` whose two X25519 shared secrets
+agree; the sealed box is 48 bytes longer than the message and starts with the ephemeral public key.
+(Transfers to the Rust under `C05.BaseEdwardsOK`: there `epk` comes from the Edwards base table.) -/
+theorem seal_roundtrip_concrete (rpk rsk esk m buf : Bytes) (hbuf : buf.length = m.length)
+    (hdh : Spec.X25519.x25519 esk rpk = Spec.X25519.x25519 rsk (Spec.X25519.x25519Base esk)) :
+    ∃ ct, boxSeal boxPrims (zeros (m.length + 48)) m rpk esk = .ok ct ∧ ct.length = m.length + 48 ∧
+      ct.take 32 = Spec.X25519.x25519Base esk ∧
+      sealOpen boxPrims buf ct rpk rsk = ⟨.ok (), m⟩ :=
+  SecretBoxExtra2.seal_roundtrip_boxPrims rpk rsk esk m buf hbuf hdh
+
+/-- `DryocBox::unseal ∘ DryocBox::seal = id` for the driver's primitives, also through `to_vec` /
+`from_sealed_bytes` (same hypothesis and the same `C05.BaseEdwardsOK` caveat) -/
+theorem seal_obj_roundtrip_concrete (rpk rsk esk m : Bytes)
+    (hdh : Spec.X25519.x25519 esk rpk = Spec.X25519.x25519 rsk (Spec.X25519.x25519Base esk)) :
+    ∃ b, objSeal boxPrims m rpk esk = .ok b ∧ objUnseal boxPrims b rpk rsk = .ok m ∧
+      fromSealedBytes (toBytes b) = .ok b := by
+  obtain ⟨b, h1, he, ht, h2⟩ := SecretBoxExtra2.objSeal_roundtrip_boxPrims rpk rsk esk m hdh
+  exact ⟨b, h1, h2, fromSealedBytes_toBytes b _ he (SecretBoxExtra2.x25519Base_length esk) ht⟩
+
+/-- non-vacuity witness for `seal_roundtrip_concrete`: RFC 7748 §6.1 — Alice's secret key as the ephemeral
+secret, Bob's key pair as the recipient (`hdh` is `x25519_dh_agreement_rfc`) -/
+example : ∃ ct, boxSeal boxPrims (zeros (toyMsg.length + 48)) toyMsg (Spec.X25519.x25519Base rfcBobSk)
+      rfcAliceSk = .ok ct ∧ ct.length = toyMsg.length + 48 ∧
+    ct.take 32 = Spec.X25519.x25519Base rfcAliceSk ∧
+    sealOpen boxPrims (zeros 3) ct (Spec.X25519.x25519Base rfcBobSk) rfcBobSk = ⟨.ok (), toyMsg⟩ :=
+  seal_roundtrip_concrete (Spec.X25519.x25519Base rfcBobSk) rfcBobSk rfcAliceSk toyMsg (zeros 3) rfl
+    x25519_dh_agreement_rfc.1
+
+/-- non-vacuity witness for `seal_obj_roundtrip_concrete`, same key pairs -/
+example : ∃ b, objSeal boxPrims toyMsg (Spec.X25519.x25519Base rfcBobSk) rfcAliceSk = .ok b ∧
+    objUnseal boxPrims b (Spec.X25519.x25519Base rfcBobSk) rfcBobSk = .ok toyMsg ∧
+    fromSealedBytes (toBytes b) = .ok b :=
+  seal_obj_roundtrip_concrete (Spec.X25519.x25519Base rfcBobSk) rfcBobSk rfcAliceSk toyMsg
+    x25519_dh_agreement_rfc.1
+
+/-! ### 8d. over-long caller buffers (caller contract: exact buffer size)
+
+`crypto_secretbox_detached` copies the message to the front of `ciphertext` and then encrypts and
+authenticates ALL of `ciphertext`; `crypto_secretbox_easy`, `crypto_box_easy`, `crypto_box_detached` and
+`crypto_box_seal` (which checks only `ciphertext.len() ≥ message.len() + 48`) inherit this.  With an
+over-long buffer the trailing buffer bytes are sealed as if they were message bytes. -/
+
+/-- `crypto_secretbox_detached` with an over-long buffer = the exactly sized call on `m ‖ trailing bytes` -/
+theorem detached_oversized_eq_exact (P : Prims) (ct m n k : Bytes) (h : m.length ≤ ct.length) :
+    detached P ct m n k = .ok (detachedInplace P (m ++ ct.drop m.length) n k) ∧
+    (m ++ ct.drop m.length).length = ct.length :=
+  ⟨by rw [SecretBoxExtra2.detached_oversized P ct m n k h, detachedInplace_eq],
+   SecretBoxExtra2.oversized_length ct m h⟩
+
+/-- `crypto_secretbox_easy` with an over-long buffer = the exactly sized call (any buffer `ct'` of the same
+length) on the message `m ‖ ct[m.len()+16 ..]` -/
+theorem easy_oversized_eq_exact (P : Prims) (ct ct' m n k : Bytes) (h : m.length + 16 ≤ ct.length)
+    (hct' : ct'.length = ct.length) :
+    easy P ct m n k = easy P ct' (m ++ ct.drop (m.length + 16)) n k :=
+  SecretBoxExtra2.easy_oversized_eq_exact P ct ct' m n k h hct'
+
+/-- with the driver's primitives: NaCl's secretbox of `m ‖ trailing bytes` (every key and nonce) … -/
+theorem easy_oversized_boxPrims (ct m n k : Bytes) (h : m.length + 16 ≤ ct.length) :
+    easy boxPrims ct m n k = .ok (Spec.NaCl.secretbox k n (m ++ ct.drop (m.length + 16))) :=
+  SecretBoxExtra2.easy_oversized_boxPrims ct m n k h
+
+theorem detached_oversized_boxPrims (ct m n k : Bytes) (h : m.length ≤ ct.length) :
+    detached boxPrims ct m n k
+      = .ok ((Spec.NaCl.secretbox k n (m ++ ct.drop m.length)).drop 16,
+             (Spec.NaCl.secretbox k n (m ++ ct.drop m.length)).take 16) :=
+  SecretBoxExtra2.detached_oversized_boxPrims ct m n k h
+
+theorem boxEasy_oversized_boxPrims (ct m n pk sk : Bytes) (h : m.length + 16 ≤ ct.length) :
+    boxEasy boxPrims ct m n pk sk = .ok (Spec.NaCl.box pk sk n (m ++ ct.drop (m.length + 16))) :=
+  SecretBoxExtra2.boxEasy_oversized_boxPrims ct m n pk sk h
+
+/-- `crypto_box_seal` accepts `ciphertext.len() ≥ message.len() + 48` and then writes libsodium's sealed
+box of `m ‖ ciphertext[m.len()+48 ..]` (the buffer's own trailing bytes), filling the whole buffer -/
+theorem boxSeal_oversized_boxPrims (ct m rpk esk : Bytes) (h : m.length + 48 ≤ ct.length) :
+    boxSeal boxPrims ct m rpk esk = .ok (Spec.NaCl.boxSeal rpk esk (m ++ ct.drop (m.length + 48))) :=
+  SecretBoxExtra2.boxSeal_oversized_boxPrims ct m rpk esk h
+
+/-- … which is NOT libsodium's box of `m` when the buffer is strictly over-long (24-byte nonce): the output
+is longer than `m.len() + 16` -/
+theorem easy_oversized_ne_spec_boxPrims (ct m n k : Bytes) (hn : 24 ≤ n.length)
+    (h : m.length + 16 < ct.length) :
+    easy boxPrims ct m n k ≠ .ok (Spec.NaCl.secretbox k n m) :=
+  SecretBoxExtra2.easy_oversized_ne_spec_boxPrims ct m n k hn h
+
+/-- the BODY of the over-long output begins with libsodium's ciphertext of `m` (prefix law of the key
+stream); what differs is the 16-byte tag in front, which authenticates the trailing bytes as well -/
+theorem easy_oversized_body_prefix_boxPrims (k n m t : Bytes) (hn : 24 ≤ n.length) :
+    ((Spec.NaCl.secretbox k n (m ++ t)).drop 16).take m.length = (Spec.NaCl.secretbox k n m).drop 16 :=
+  SecretBoxExtra2.secretbox_oversized_body_prefix k n m t hn
+
+/-- non-vacuity witnesses for the hypotheses of the `*_oversized_*` theorems: a 20-byte buffer for a 3-byte
+message (one byte too long), a 52-byte buffer for the sealed box -/
+example : easy boxPrims (zeros 20) toyMsg (zeros 24) (zeros 32)
+    ≠ .ok (Spec.NaCl.secretbox (zeros 32) (zeros 24) toyMsg) :=
+  easy_oversized_ne_spec_boxPrims _ _ _ _ (by decide) (by decide)
+example : boxSeal boxPrims (zeros 52) toyMsg (zeros 32) (zeros 32)
+    = .ok (Spec.NaCl.boxSeal (zeros 32) (zeros 32) (toyMsg ++ [0])) :=
+  boxSeal_oversized_boxPrims (zeros 52) toyMsg _ _ (by decide)
+example : easy toyPrims (zeros 20) toyMsg toyNonce toyKey
+    = easy toyPrims (List.replicate 20 9) (toyMsg ++ [0]) toyNonce toyKey :=
+  easy_oversized_eq_exact toyPrims _ _ _ _ _ (by decide) (by decide)
+
+/-- EVALUATED EXAMPLE (kernel evaluation of XSalsa20 and Poly1305, all-zero key and nonce): sealing the 3-byte
+message `01 02 03` into a 20-byte buffer gives libsodium's secretbox of the FOUR bytes `01 02 03 00`; its
+first 19 bytes are not libsodium's secretbox of `01 02 03` — the three ciphertext bytes agree, the tag does
+not — and `crypto_secretbox_open_easy` rejects them. -/
+theorem easy_oversized_example :
+    easy boxPrims (zeros 20) toyMsg (zeros 24) (zeros 32)
+      = .ok (Spec.NaCl.secretbox (zeros 32) (zeros 24) (toyMsg ++ [0])) ∧
+    (Spec.NaCl.secretbox (zeros 32) (zeros 24) (toyMsg ++ [0])).take 19
+      ≠ Spec.NaCl.secretbox (zeros 32) (zeros 24) toyMsg ∧
+    ((Spec.NaCl.secretbox (zeros 32) (zeros 24) (toyMsg ++ [0])).drop 16).take 3
+      = (Spec.NaCl.secretbox (zeros 32) (zeros 24) toyMsg).drop 16 ∧
+    (Spec.NaCl.secretbox (zeros 32) (zeros 24) (toyMsg ++ [0])).take 16
+      ≠ (Spec.NaCl.secretbox (zeros 32) (zeros 24) toyMsg).take 16 ∧
+    (openEasy boxPrims (zeros 3) ((Spec.NaCl.secretbox (zeros 32) (zeros 24) (toyMsg ++ [0])).take 19)
+      (zeros 24) (zeros 32)).res = .err := by
+  refine ⟨easy_oversized_boxPrims (zeros 20) toyMsg _ _ (by decide), ?_, ?_, ?_, ?_⟩
+  · set_option maxRecDepth 100000 in decide +kernel
+  · set_option maxRecDepth 100000 in decide +kernel
+  · set_option maxRecDepth 100000 in decide +kernel
+  · set_option maxRecDepth 100000 in decide +kernel
+
+end Round2
 
 end DryocVerif.Properties.C01
